@@ -3,6 +3,11 @@
 import json, subprocess, sys
 
 claimed = {
+ "C19": dict(
+   text="Deductive proof of the query algebra: part.merge — several terms on one key mean their conjunction: for every pair of parts (equality, <, >, range, every combination, bytewise string order) the merged part is satisfied by exactly the non-empty values satisfying both, and io.EOF is returned only when no value satisfies both (130 paths, all operand orders); the solver's counterexample for a broken merge is replayed on the real code.  SplitWords is proved panic-free and terminating and returns only non-empty words.  The splitting rule and the front end's quoting (addToQuery then SplitWords gives back exactly the original word) are covered by an exhaustive bounded round trip; SQL execution, record coalescing, the legacy printer/reader, HTTP and the upload listing are out of reach and not claimed.",
+   note="Trusted: bytewise string order is modelled by an injective rank into the non-negative integers with the empty string least; io.EOF is non-nil.  Not covered: storage/db SQL, storage/benchfmt, storage/app, client.",
+   technique="contract-based deductive verification (own VC generator over go/ssa; string order as an order embedding; z3/cvc5) + exhaustive bounded round trip for the splitter",
+   design="5/C19"),
  "C06": dict(
    text="Deductive proof of the filter machinery for every measurement count (symbolic n, so word boundaries at 32, 64, ... are covered): mask operations (set/and/or/not, word level and bit level), Match.Test (bit i), Match.All / Match.Any (sound at bit level for all i < n, with a word-level witness otherwise), Match.Apply (keeps precisely the matching measurements in their original order — keepCount — and reports whether any remain; nothing else in the result changes), Filter.Match (leaves the result untouched), the .unit leaf (bit i set exactly when measurement i's base or written unit matches) and the NOT / AND / OR closures of filterOp: each is verified against the contract of the function type filterFn (a fresh mask with one bit per measurement, or a whole-result verdict, agreeing with its denotation den), so that AND denotes the conjunction and OR the disjunction of the operands' denotations, short-circuits included.  The parser (text to tree), NewFilter's tree walk and the fixed-list filter of makeProjection are covered by a bounded stand-in only.",
    note="Trusted: calls through filterFn values satisfy the type contract (each filterFn under contract is verified against it; the key leaf's extractor call is unconstrained); regexp matching is a function of (regexp, string); uint32 masks are bit-vectors, indices mathematical integers.",
